@@ -517,6 +517,9 @@ func c18PackageOnce(c *fw.Ctx, id string, srcs map[string]string, withImporter b
 
 func runC18(c *fw.Ctx) {
 	snips := extraSnippets()
+	for k, v := range layoutZoo() {
+		snips["zoo/"+k] = v
+	}
 	var sn []string
 	for k := range snips {
 		if !strings.HasPrefix(k, "bad:") {
